@@ -48,12 +48,20 @@ where
     }
 }
 
+// Checks whether the lowercase mapping of a character is anything other than
+// the character itself. Not only uppercase letters have such a mapping, also
+// titlecase letters and some symbols do.
+fn has_lowercase_mapping(c: char) -> bool {
+    let mut lower = c.to_lowercase();
+    lower.next() != Some(c) || lower.next().is_some()
+}
+
 pub fn case_mapping_rule<'a, T>(s: T) -> Result<Cow<'a, str>, Error>
 where
     T: Into<Cow<'a, str>>,
 {
     let s = s.into();
-    match s.find(char::is_uppercase) {
+    match s.find(has_lowercase_mapping) {
         None => Ok(s),
         Some(pos) => {
             let mut res = String::from(&s[..pos]);
